@@ -83,8 +83,8 @@ PROPS = {
         level_note='stop/resume equivalence only on instances whose class is certified and tolerance-robust; time-limit stops use real clocks '
                    '(limit 0 / 1e-9), the deterministic virtual-clock hook of the design was not built; exact-solve limits are covered in C03/C16 notes',
         technique='fault enumeration over stop points of real executions: iteration limit and log-driven interrupt injection, basis/status/resume oracles under ASan+UBSan',
-        stages=two_flavour('h_solve', 60, 240, 1500, 6000),
-        minima=lambda t: {'c16.stop_points': 2000, 'c16.iterlimit.stopped_inside_solve': 300, 'c16.interrupt.stopped_inside_solve': 200,
+        stages=lambda t: two_flavour('h_solve', 60, 240, 1500, 6000)(t) + [memcheck_stage('h_solve', 16, 320)(t)],
+        minima=lambda t: {'memcheck.cases_completed': 14, 'c16.stop_points': 2000, 'c16.iterlimit.stopped_inside_solve': 300, 'c16.interrupt.stopped_inside_solve': 200,
                           'c16.iterlimit.resumed': 500, 'c16.interrupt.resumed': 500, 'c16.basis_after_stop_checked': 500,
                           'c16.objlimit.sense.max.upper': 100, 'c16.objlimit.sense.max.lower': 100, 'c16.objlimit.sense.min.upper': 100, 'c16.objlimit.sense.min.lower': 100},
         eval_counter='c16.stop_points', distinct_set='stoppoints',
@@ -123,8 +123,8 @@ PROPS['C06'] = dict(
                'certified truth. Configurations cross scaler x persistent scaling x simplifier x representation. Sampling of histories.',
     level_note='solve equivalence judged only on instances with certified, tolerance-robust class; small integer data',
     technique='runtime monitoring: sequential reference-model (mirror) check after each API call of seeded histories, under ASan+UBSan',
-    stages=two_flavour('h_modify', 300, 1200, 6000, 20000),
-    minima=lambda t: {'c06.solves_compared': 300, 'c06.stale_checks': 3000, 'c06.op.removeRowsReal(perm)': 50, 'c06.op.changeElementReal': 50,
+    stages=lambda t: two_flavour('h_modify', 300, 1200, 6000, 20000)(t) + [memcheck_stage('h_modify', 48, 1200)(t)],
+    minima=lambda t: {'memcheck.cases_completed': 45, 'c06.solves_compared': 300, 'c06.stale_checks': 3000, 'c06.op.removeRowsReal(perm)': 50, 'c06.op.changeElementReal': 50,
                       'c06.op.removeColRangeReal': 30, 'c06.basis_after_modification_checked': 300},
     eval_counter='cases', distinct_set='nontrivial',
     rule='case k -> (history seed, scaler=k%7, persistent=(k/7)%2, simplifier=(k/14)%2, representation=(k/28)%3, other parameters random); '
@@ -140,8 +140,8 @@ PROPS['C09'] = dict(
                'changed while persistent scaling is active reads back exactly, over 2-14 solve/modify cycles. Sampling.',
     level_note='magnitudes kept within 2^+-200 so power-of-two scaling cannot overflow; observed exponents are reported (all-zero => inconclusive)',
     technique='runtime monitoring: bitwise power-of-two oracle on bare scalers and mirror/byte comparison at user level, under ASan+UBSan',
-    stages=two_flavour('h_modify', 1200, 5000, 30000, 100000),
-    minima=lambda t: {'c09.bare.nonzero_exponents_seen': 300, 'c09.bare.unscaleLP_checked': 150, 'c09.user.nonzero_exponents_seen': 200,
+    stages=lambda t: two_flavour('h_modify', 1200, 5000, 30000, 100000)(t) + [memcheck_stage('h_modify', 64, 1600)(t)],
+    minima=lambda t: {'memcheck.cases_completed': 60, 'c09.bare.nonzero_exponents_seen': 300, 'c09.bare.unscaleLP_checked': 150, 'c09.user.nonzero_exponents_seen': 200,
                       'c09.user.files_compared': 200, 'c09.user.certificates_checked': 200},
     eval_counter='cases', distinct_set='nontrivial',
     rule='even k: bare scaler (scaler=1+(k/8)%6, persistent=(k/48)%2) on a seeded badly-scaled LP; odd k: user-level history (scaler=(k/2)%7, '
